@@ -36,7 +36,7 @@ Effect(d, ev, createMode) ==
   LET f == d[ev.obj] IN
   IF ~ev.ok THEN d            \* a failed (or never executed: killed) call changes nothing; a short write is an ok write that is not "full"
   ELSE CASE ev.c = "openw"  -> [d EXCEPT ![ev.obj] = File("empty", IF f.content = "absent" THEN createMode ELSE f.mode)]      \* O_CREAT|O_TRUNC
-         [] ev.c = "write"  -> [d EXCEPT ![ev.obj] = File(IF ev.full THEN (IF ev.obj = "tmp" THEN "fixed" ELSE "other") ELSE "partial", f.mode)]
+         [] ev.c = "write"  -> [d EXCEPT ![ev.obj] = File(IF ev.full THEN (IF ev.obj \in {"tmp", "target"} THEN "fixed" ELSE "other") ELSE "partial", f.mode)]      \* (a write to the target itself is not in the protocol - Step rejects it - but the disk model follows it)
          [] ev.c = "copy"   -> [d EXCEPT ![ev.obj] = File(IF ev.full THEN "orig" ELSE "partial", f.mode)]
          [] ev.c = "utime"  -> d
          [] ev.c = "chmod"  -> [d EXCEPT ![ev.obj] = File(f.content, ev.mode)]
